@@ -57,6 +57,7 @@ func runC04(p *Program, e *Engine, r *Result, tier string) {
 	c04Replace(a, tf, addWith, "C04.7")
 	c04Normaliser(a, tf, []*ssa.Function{addWith, rm})
 	c04RemoveExact(a, tf, rm, "C04.6")
+	c04AddAsksKernel(a, "C04.8")
 	c04WatchList(a, tf)
 	c07Deref(a, "C04.3n")
 }
@@ -542,6 +543,8 @@ func c04Normaliser(a *An, tf *tableFacts, roots []*ssa.Function) {
 			}
 			keys[stripIDs(v.Ctx.path(key))] = a.P.instrPos(v.Instr)
 		}
+		// a key that is an element of a local slice stands for what was put into that slice
+		keys = expandElementStrings(w, keys)
 		for k, pos := range keys {
 			ok := false
 			why := ""
@@ -566,6 +569,52 @@ func c04Normaliser(a *An, tf *tableFacts, roots []*ssa.Function) {
 				pos, ok, why)
 		}
 	}
+}
+
+// c04AddAsksKernel: every return of AddWith that can yield a nil error has passed a call of inotify_add_watch.
+func c04AddAsksKernel(a *An, rule string) {
+	aw := a.Ro.API["AddWith"]
+	if aw == nil {
+		a.R.fail("anchor unresolved: AddWith")
+		return
+	}
+	w := a.walk(aw)
+	asked := dnfFalse()
+	n := 0
+	for _, v := range syscallVisits(a, w, "InotifyAddWatch") {
+		asked = asked.or(v.Cond)
+		n++
+	}
+	if n == 0 {
+		a.R.ob(rule, "add:asks-kernel", "a successful Add has called inotify_add_watch", a.P.pos(aw.Pos()), false, "no inotify_add_watch reachable from AddWith")
+		return
+	}
+	nRet := 0
+	var bad []string
+	for _, v := range w.Visits {
+		r, ok := v.Instr.(*ssa.Return)
+		if !ok || v.Ctx.Parent != nil || len(r.Results) != 1 {
+			continue
+		}
+		for _, e := range valueEdges(v.Ctx, r.Results[0], v.Cond) {
+			if !isNilConst(e.V) {
+				if k, isK := e.V.(*ssa.Const); !isK || k.Value != nil {
+					continue // an error value: not a successful Add
+				}
+			}
+			nRet++
+			h, ctr, err := implies(e.Cond, asked)
+			if err != nil {
+				a.R.fail("%s: %v", rule, err)
+				continue
+			}
+			if !h {
+				bad = append(bad, "nil is returned without asking the kernel when "+stripIDs(ctr))
+			}
+		}
+	}
+	a.R.ob(rule, "add:asks-kernel", "every successful Add has called inotify_add_watch for the path (the table is never trusted to say 'already watched')", a.P.pos(aw.Pos()),
+		len(bad) == 0 && nRet >= 1, sprintf("%d nil-result edge(s) examined, %d inotify_add_watch site(s); %s", nRet, n, strings.Join(uniq(bad), "; ")))
 }
 
 // c04RemoveExact: deletes on the Remove flow concern the named path unless under the recursive flag.
